@@ -1,0 +1,35 @@
+//! Verification hooks (only compiled with `--cfg iroh_verif`).
+//!
+//! Thin public wrappers around crate-private items so that the conformance harness in
+//! `/verif` can drive them.  Add-only; nothing here is used by the crate itself.
+#![allow(missing_docs, missing_debug_implementations)]
+
+/// Relay handshake (C03): the crate-private honest client side.
+pub mod handshake {
+    use http::HeaderValue;
+    use iroh_base::SecretKey;
+
+    use crate::{
+        ExportKeyingMaterial,
+        protos::{
+            handshake::{self as hs, Error, KeyMaterialClientAuth},
+            streams::BytesStreamSink,
+        },
+    };
+
+    /// [`hs::clientside`]: runs the honest client side of the handshake.
+    pub async fn clientside(
+        io: &mut (impl BytesStreamSink + ExportKeyingMaterial),
+        secret_key: &SecretKey,
+    ) -> Result<(), Error> {
+        hs::clientside(io, secret_key).await.map(|_| ())
+    }
+
+    /// `KeyMaterialClientAuth::new(..).map(into_header_value)`: the header an honest client sends.
+    pub fn key_material_header(
+        secret_key: &SecretKey,
+        io: &impl ExportKeyingMaterial,
+    ) -> Option<HeaderValue> {
+        KeyMaterialClientAuth::new(secret_key, io).map(KeyMaterialClientAuth::into_header_value)
+    }
+}
